@@ -891,7 +891,7 @@ def rule_candidates_once(chk):
             chk.ob("C16.candidates/once/%s#%d" % (owner, k), ok, "the id is entered into the scope right after it was created by register_function" if ok else
                    "%s enters a function id into the scope on a path that did not create it (not dominated by register_function): a re-declared overload is listed twice among the candidates, "
                    "both copies survive the tournament and the call becomes ambiguous depending on declaration order" % owner, where(b, t.get("ln")))
-    chk.floor("C16.floor/scope-insertions", n, 2, "call sites that enter a function into a scope", TY)
+    chk.floor("C16.floor/scope-insertions", n, 1, "call sites that enter a function into a scope", TY)
     ins = f.fn("insert_function_in_scope", TY)
     if chk.anchor("C16.anchor/insert_function_in_scope", ins, "Context::insert_function_in_scope"):
         conds = [x for x in F.walk(ins["thir"]) if isinstance(x, dict) and x.get("k") == "If"]
